@@ -87,6 +87,7 @@ def _run(case, prog, factor, strict, clock):
                 st_["late"] += 1
             n_sleeps = len(clock.sleeps)
             step0 = h.step_no
+            now0 = env.now
             try:
                 env.step()
             except (HarnessError, WatchdogTrip, Inconclusive):
@@ -105,6 +106,12 @@ def _run(case, prog, factor, strict, clock):
                     if h.cur_occ is not None:
                         raise Violation("C20.strict_processed", "step() raised 'too slow' but processed the occurrence",
                                         "C20.strict_processed")
+                    if env.now != now0 or env.peek() != pk:
+                        # the refused step processed nothing: the program goes on from where it was (same results as the plain
+                        # kernel), so neither the clock nor the agenda may have moved
+                        raise Violation("C20.strict_processed", f"step() raised 'too slow' without processing anything, yet now went "
+                                                                f"from {now0} to {env.now} (next occurrence due {pk}, peek() now "
+                                                                f"{env.peek()})", "C20.strict_processed/clock-moved")
                     st_["raised"] += 1
                     # resynchronise and go on (exercises sync re-basing)
                     env.sync()
